@@ -22,7 +22,9 @@ Oracle :
                             no start of an internal engine command (Pause/Hold) carrying the item's instance id after the call
      cancel, UOD command  : an initialised, not yet finalised command is finalised before cancel_instruction returns
                             (Engine.cancel_instruction docstring: "Cancel command instance and finalize it immidiately");
-                            `finalized-late` = finalize came in a later tick, `never-finalized` = not at all
+                            `finalized-late` = finalize in the next tick(s) without an exec callback in between (known finding),
+                            `still-executing` = exec callbacks go on after the cancel, `not-finalized-within-bound` /
+                            `never-finalized` = no finalize within FINALIZE_TICKS ticks / at all
      cancel, timed Pause/Hold whose command is running : directly after the call the run is no longer Paused / Holding
      cancel, Watch        : no scope activation of that Watch and no effect of any line of its body afterwards
      force, Watch         : the Watch is activated within WATCH_TICKS (5) interpreter ticks although nothing else changed
@@ -57,7 +59,7 @@ TECHNIQUE = ("Hypothesis-generated methods x cancel/force requests on the k-th c
              "differential twin run for not-offered requests, bounded-response effect checks for offered ones")
 RULE = ("Hypothesis draws a method (Watch/Alarm/Wait/timed Pause+Hold/UOD commands/blocks/macros, 30 % with thresholds), an "
         "input trajectory, 25..max_ticks ticks and a salt from which the request sets are derived by hashing; every request set is "
-        "one case: 1 request (most) or 2-4 requests "
+        "one case: 1 request (most), 2-4 requests, or a pair of requests for the same item 1-2 ticks apart "
         "(tick, cancel|force, k, pool), k resolved at run time against the current run log. The generator places a request by "
         "choosing uniformly an item that is ever in the pool during a request-free probe run and then uniformly a tick of its "
         "stay in the pool. In addition `sweep_programs` small programs are swept literally: one single-request case for every "
@@ -87,9 +89,9 @@ ASSUMPTIONS = [
     "methods contain no Stop/Restart and no untimed Pause/Hold; no user control commands are issued",
 ]
 TIERS = {
-    "quick": {"examples": 640, "singles": 6, "multis": 2, "max_ticks": 60, "max_top": 7, "depth": 3,
+    "quick": {"examples": 640, "singles": 6, "multis": 2, "pairs": 1, "max_ticks": 60, "max_top": 7, "depth": 3,
               "sweep_programs": 4, "sweep_top": 3, "sweep_ticks": 30, "budget_s": 150},
-    "thorough": {"examples": 6400, "singles": 10, "multis": 3, "max_ticks": 90, "max_top": 10, "depth": 4,
+    "thorough": {"examples": 6400, "singles": 10, "multis": 3, "pairs": 2, "max_ticks": 90, "max_top": 10, "depth": 4,
                  "sweep_programs": 48, "sweep_top": 4, "sweep_ticks": 40, "budget_s": 1500},
 }
 
@@ -103,6 +105,11 @@ EXCLUDE_KNOWN_CONCLUDED_IN_MULTI = False   # the defect is repaired in /repo (6c
 # Watch/Alarm (its interrupt is registered from inside an interrupt); a forced Wait / threshold line continues in the next tick.
 WATCH_TICKS = 5
 WAIT_TICKS = 3
+# A cancelled running UOD command is finalized before cancel_instruction returns.  The registered known finding `finalized-late`
+# is: finalized in the first tick after the request and no exec callback in between.  Anything slower is a different signature:
+# exec callbacks continue (`still-executing`), finalize later than FINALIZE_TICKS ticks (`not-finalized-within-bound`), none at all
+# (`never-finalized`).
+FINALIZE_TICKS = 2
 # Known finding (registered): inside an Alarm/Macro body the node of a line is re-used by every round/call, and a request is
 # checked against the node's *live* flags and booked on the record's latest instance, not on the instance it names.  So a request
 # for a stale, not-offered, still pending item of such a line (or of the Alarm itself) is accepted.  The registered signatures are
@@ -259,6 +266,13 @@ def _request_sets(prog, cfg, thresholds: bool):
     sets = [[req(i, 0)] for i in range(cfg["singles"])]
     for i in range(cfg["multis"]):
         sets.append([req(1000 + i, j) for j in range(2 + rnd(1000 + i, 0, "len", 3))])
+    for i in range(cfg.get("pairs", 0)):
+        # two requests for the SAME item, 1-2 ticks apart (force then cancel, cancel then force, twice the same): the second
+        # one meets the node state the first one left behind
+        first = req(2000 + i, 0)
+        first[3] = "pending"
+        sets.append([first, [1 + rnd(2000 + i, 1, "gap", 2), 0, H.OPS[rnd(2000 + i, 1, "op", 2)] if rnd(2000 + i, 1, "same", 4) == 0
+                             else H.OPS[1 - H.OPS.index(first[2])], "follow"]])
     return sets
 
 
@@ -268,7 +282,18 @@ def _resolve(abstract, probe, n, multi: bool):
     pool at that tick.  So short-lived states (an instruction in its first tick, a command in its last iteration) are hit as
     often as long waits.  A pool without any candidate in the whole run falls back to "pending", then "all"."""
     out, remapped = [], []
+    prev = None      # (instance id, tick) the previous request of the set was resolved to
     for u, v, op, pool in abstract:
+        if pool == "follow":
+            # same item as the previous request, u ticks later, addressed by its index in the whole run log at that tick
+            where = None
+            if prev is not None:
+                for tk in probe.ticks:
+                    if tk["t"] >= prev[1] + u and prev[0] in tk["slot"]["all"]:
+                        where = [tk["t"], op, tk["slot"]["all"].index(prev[0]), "all"]
+                        break
+            out.append(where if where is not None else [min(n - 1, (prev[1] if prev else 2) + u), op, 0, "pending"])
+            continue
         if multi and EXCLUDE_KNOWN_CONCLUDED_IN_MULTI and pool == "all":
             pool = "pending"
             remapped.append(op)
@@ -286,6 +311,7 @@ def _resolve(abstract, probe, n, multi: bool):
         ids = sorted(life)
         t, j = life[ids[u % len(ids)]][v % len(life[ids[u % len(ids)]])]
         out.append([t, op, j, pool])
+        prev = (ids[u % len(ids)], t)
     out.sort(key=lambda r: r[0])
     return out, remapped
 
@@ -530,40 +556,65 @@ def oracle(case, A, B):
             continue
 
         if rec["op"] == "cancel":
-            late = [e for e in after if (e[1] == "cmd" and e[3] == iid and e[4] in ("init", "exec")) or (e[1] == "icmd" and e[3] == iid)]
-            if late and EXCLUDE_KNOWN_FORCED_UOD_CANCEL_CONSEQUENCES and grp == "uod" and rec["item"]["f"] and rec["cmd_started"]:
-                # consequence of the known finding cancel:uod:offered:finalized-late (cancel of a *forced* running command: the
-                # exception of tracking.mark_cancelled is swallowed, the request stays in the executing list); when a command of
-                # the same name follows, the instance is finalized by it and the cancelled request starts a fresh instance
-                classes += ["excluded_known:cancel:uod:offered:finalized-late", "known-consequence:forced-uod-cancel:command-restarts"]
-            elif late:
-                e0 = late[0]
-                what = "UOD command %s %s (iteration %s)" % (e0[2], e0[4], e0[6]) if e0[1] == "cmd" else "internal command %s started" % e0[2]
-                viol("cancel:%s:offered:runs-after-cancel" % grp,
-                     "%s, but the cancelled instance ran afterwards: tick %d %s; %d callbacks/starts after the cancel in total "
-                     "(command request not yet started when the cancel arrived: %s)" % (describe(rec), e0[0], what, len(late), not rec["cmd_started"]))
-            else:
-                classes.append("checked:cancel:%s:no-later-effect" % grp)
-            if grp == "uod":
-                inited = any(e[1] == "cmd" and e[3] == iid and e[4] == "init" for e in before)
-                finalized = any(e[1] == "cmd" and e[3] == iid and e[4] == "finalize" for e in before)
-                if inited and not finalized:
-                    if any(e[1] == "cmd" and e[3] == iid and e[4] == "finalize" for e in during):
-                        classes.append("checked:cancel:uod:finalized-at-once")
-                    else:
-                        later = [e[0] for e in after if e[1] == "cmd" and e[3] == iid and e[4] == "finalize"]
-                        if later:
-                            viol("cancel:uod:offered:finalized-late",
-                                 "%s, but the running command was not finalized before cancel_instruction returned (documented: immediately); "
-                                 "its finalize callback came in tick %d" % (describe(rec), later[0]))
-                        elif len([tk for tk in A.ticks if tk["t"] >= rec["tick"]]) >= 2:
-                            viol("cancel:uod:offered:never-finalized",
-                                 "%s, but the running command was never finalized (run continued for %d ticks)"
-                                 % (describe(rec), len([tk for tk in A.ticks if tk["t"] >= rec["tick"]])))
-                        else:
-                            classes.append("inconclusive:cancel:uod:run-ends")
+            own = [e for e in after if e[1] == "cmd" and e[3] == iid]          # callbacks of the cancelled instance after the call
+            inited = grp == "uod" and any(e[1] == "cmd" and e[3] == iid and e[4] == "init" for e in before)
+            finalized = grp == "uod" and any(e[1] == "cmd" and e[3] == iid and e[4] == "finalize" for e in before)
+            if grp == "uod" and inited and not finalized:
+                # ---- a running UOD command was cancelled ------------------------------------------------------------------
+                first_tick = next((tk["no"] for tk in A.ticks if tk["t"] == rec["tick"]), None)   # first tick after the request
+                left = len([tk for tk in A.ticks if tk["t"] >= rec["tick"]])
+                if any(e[4] == "finalize" for e in during if e[1] == "cmd" and e[3] == iid):
+                    classes.append("checked:cancel:uod:finalized-at-once")
+                    fin_pos = -1
                 else:
+                    fin_pos = next((j for j, e in enumerate(own) if e[4] == "finalize"), None)
+                    execs = [e for e in (own if fin_pos is None else own[:fin_pos]) if e[4] == "exec"]
+                    if execs:
+                        viol("cancel:uod:offered:still-executing",
+                             "%s, but the command went on executing: %d exec callbacks after the cancel before any finalize (first in tick %d, "
+                             "iteration %s), finalize callback: %s" % (describe(rec), len(execs), execs[0][0], execs[0][6],
+                                                                        "tick %d" % own[fin_pos][0] if fin_pos is not None else "never"))
+                    elif fin_pos is not None and first_tick is not None and own[fin_pos][0] < first_tick + FINALIZE_TICKS:
+                        viol("cancel:uod:offered:finalized-late",
+                             "%s, but the running command was not finalized before cancel_instruction returned (documented: immediately); "
+                             "its finalize callback came in tick %d, without any exec callback in between" % (describe(rec), own[fin_pos][0]))
+                    elif fin_pos is not None:
+                        viol("cancel:uod:offered:not-finalized-within-bound",
+                             "%s, but the running command was finalized only in tick %d, more than %d ticks after the cancel"
+                             % (describe(rec), own[fin_pos][0], FINALIZE_TICKS))
+                    elif left >= FINALIZE_TICKS + 1:
+                        viol("cancel:uod:offered:never-finalized",
+                             "%s, but the running command was never finalized (run continued for %d ticks)" % (describe(rec), left))
+                    else:
+                        classes.append("inconclusive:cancel:uod:run-ends")
+                # a fresh start of the cancelled request after its finalize
+                restart = [e for e in (own[fin_pos + 1:] if fin_pos is not None and fin_pos >= 0 else (own if fin_pos == -1 else [])) if e[4] in ("init", "exec")]
+                if restart and EXCLUDE_KNOWN_FORCED_UOD_CANCEL_CONSEQUENCES and rec["live"] is False and fin_pos is not None and fin_pos >= 0:
+                    # consequence of the known finding cancel:uod:offered:finalized-late (the node of the command line is no longer
+                    # cancellable - forced, or cancelled through another invocation -, tracking.mark_cancelled raises, the exception
+                    # is swallowed and the request stays in the executing list): when a command of the same name follows, the
+                    # cancelled instance is finalized by it and the cancelled request then starts a fresh instance
+                    classes += ["excluded_known:cancel:uod:offered:finalized-late", "known-consequence:forced-uod-cancel:command-restarts"]
+                elif restart:
+                    viol("cancel:uod:offered:runs-after-cancel",
+                         "%s, but after its finalize the cancelled request started again: tick %d %s (iteration %s)"
+                         % (describe(rec), restart[0][0], restart[0][4], restart[0][6]))
+                elif not any(v.sig.startswith("cancel:uod:offered:") for v in out):
+                    classes.append("checked:cancel:uod:no-later-effect")
+            else:
+                late = [e for e in own if e[4] in ("init", "exec")] + [e for e in after if e[1] == "icmd" and e[3] == iid]
+                if late:
+                    e0 = late[0]
+                    what = "UOD command %s %s (iteration %s)" % (e0[2], e0[4], e0[6]) if e0[1] == "cmd" else "internal command %s started" % e0[2]
+                    viol("cancel:%s:offered:runs-after-cancel" % grp,
+                         "%s, but the cancelled instance ran afterwards: tick %d %s; %d callbacks/starts after the cancel in total "
+                         "(command request not yet started when the cancel arrived: %s)" % (describe(rec), e0[0], what, len(late), not rec["cmd_started"]))
+                else:
+                    classes.append("checked:cancel:%s:no-later-effect" % grp)
+                if grp == "uod":
                     classes.append("cancel:uod:not-yet-initialised" if not inited else "cancel:uod:already-finalized")
+            if grp == "uod":
+                pass    # judged above
             elif grp in ("pause", "hold"):
                 running = any(e[1] == "icmd" and e[3] == iid for e in before)
                 # an error pauses the run (paused flag / System State Paused); that does not touch the hold flag, so a cancelled
@@ -755,7 +806,7 @@ def run_shard(col, cfg):
             case = {"tree": prog["tree"], "traj": prog["traj"], "n": prog["n"], "reqs": reqs}
             vs, classes, nontrivial = evaluate(case)
             classes = list(classes) + ["excluded_known:%s" % (SIG_CONCLUDED % op) for op in remapped] + common
-            classes.append("requests:%s" % ("1" if len(reqs) == 1 else "2-4"))
+            classes.append("requests:%s" % ("1" if len(reqs) == 1 else "same-item-pair" if abstract[-1][3] == "follow" else "2-4"))
             col.record(case, nontrivial, classes=classes, violations=vs,
                        sample={"method": G.text_of(lines), "traj": case["traj"], "ticks": case["n"], "reqs": reqs})
 
